@@ -283,7 +283,13 @@ func (i *IOCbor) PreSign(entry iface.IPFSLogEntry) (iface.IPFSLogEntry, error) {
 		return entry, nil
 	}
 
+	original := entry
 	entry = entry.Copy()
+
+	// Copy drops repeated links: seal and sign the link lists the entry really
+	// carries, so that a verified entry cannot have links added that way
+	entry.SetNext(original.GetNext())
+	entry.SetRefs(original.GetRefs())
 
 	links := &jsonable.EntryV2{}
 	links.Next = entry.GetNext()
